@@ -11,8 +11,8 @@ claimed = {
    text="Unbounded deductive proof: every header encoder (pb request/response MarshalTo/Marshal/Size, code request/response Marshal), the varint "
         "primitives of hslam/code (verified from the module source), checkBuffer and the upgrade byte meet a wire-format spec function written "
         "from the documented formats, for every field value, every length up to 2^47 and every capacity/content of the scratch buffer; varint loops are "
-        "unrolled to the operand width (10) with an unwinding assertion, which is complete. The default-header write paths (clientCodec.WriteRequest, serverCodec.WriteResponse) are proved to emit exactly that format for the request/response fields and to grow the scratch buffer on demand. Decoder functional (round-trip) cases and the json header are listed in level_note.",
-   note=TRUST+"encoding/json is trusted (only struct tags are checked); decoders are proved only for their safety case (C08) so far; "
+        "unrolled to the operand width (10) with an unwinding assertion, which is complete. The default-header write paths (clientCodec.WriteRequest, serverCodec.WriteResponse) are proved to emit exactly that format for the request/response fields and to grow the scratch buffer on demand. That the decoders invert the encoders is NOT proved deductively: it is covered by a bounded stand-in only (labelled bounded in the evidence, see level_note).",
+   note=TRUST+"encoding/json is trusted (only struct tags are checked); the decoders are proved for safety and for 'accepted fields lie inside the frame' (C08); decode(encode(x)) == x is exercised by the bounded stand-in bounded/header_roundtrip_test.go (all four header paths, varint-boundary sequence numbers and lengths up to 16384, dirty buffers) and is not counted among the discharged obligations; "
         "preconditions of the encoders (scratch buffer does not alias the fields) are checked at their in-repo call sites only where those are under contract.",
    design="5/C07", technique="contract-based deductive verification: generated WP obligations over go/ssa, discharged by z3"),
 
@@ -102,7 +102,7 @@ claimed = {
  "C20": dict(
    text="Deductive proof of the safety core for Conn, Client and the per-connection server loop: Conn.Close closes the codec exactly when closing was not yet set and reports ErrShutdown otherwise, the reader's exit closes every per-connection queue it owns, "
         "NewConnWithCodec starts exactly one reader on a fresh connection, ServeCodec and the poll-mode end-of-connection branch close their codec exactly once and every stream and queue of the connection, Transport.Close closes its done channel at most once and drains every idle queue, Client.Close drains all waiters and closes done at most once.",
-   note=TRUST+"Transport.Close is under contract (done closed at most once by the winner of the CAS - ghost close token; idle queues drained; lock invariant kept), Server.Close and listen's accept loop are not; goroutine exit and Listen returning are liveness of hslam/socket and not decided.",
+   note=TRUST+"Transport.Close is under contract (done closed at most once by the winner of the CAS - ghost close token; idle queues drained; lock invariant kept), Server.Close closes every listener under Server.mut (structural), listen's accept loop is not under contract; goroutine exit and Listen returning are liveness of hslam/socket and not decided.",
    design="5/C20", technique="contract-based deductive verification: typestate and ghost counters, z3"),
  "C15": dict(
    text="Deductive proof of the safety core: the housekeeping loop (Transport.run) and CloseIdleConnections close an active connection only after NumCalls() == 0 was observed for it in the same iteration, under the pool lock (call-site assertion on every such Close), "
